@@ -25,7 +25,8 @@ def delimited_line(shape, cells):
         return ",".join(cells) + "\r\n"  # (an empty line stands for a row without items)
     import csv
     stream = io.StringIO(newline="")
-    csv.writer(stream).writerow(cells)
+    # (under 'skip initial space' every item is quoted, so that blanks at the start of a cell stay part of the cell)
+    csv.writer(stream, quoting=csv.QUOTE_ALL if shape.skip else csv.QUOTE_MINIMAL).writerow(cells)
     return stream.getvalue()
 
 
@@ -44,6 +45,9 @@ class Shape(object):
         self.narrow = fmt == "narrow"  # recording CID that allows digits, dot and blank only (C20: allowed characters are per CID)
         if self.narrow:
             fmt = "delimited"
+        # "...+skip": delimited data whose CID says 'skip initial space' (the csv reader then runs with other settings)
+        self.skip = "+skip" in fmt
+        fmt = fmt.replace("+skip", "")
         self.declared_line = ":" in fmt  # (delimited data: a line delimiter other than the default 'any' is declared)
         if ":" in fmt:
             fmt, self.line = fmt.split(":")
@@ -64,6 +68,8 @@ class Shape(object):
             rows.append(["D", "Line delimiter", self.line])
         if self.file_target:
             rows.append(["D", "Encoding", "ascii"])
+        if self.skip:
+            rows.append(["D", "Skip initial space", "true"])
         if self.recording:
             rows.append(["D", "Allowed characters", "32, 46, 48...57" if self.narrow else "32...125"])  # "~" (126) is never allowed
         length = str(self.width) if self.fmt == "fixed" else ""
@@ -166,6 +172,8 @@ class Shape(object):
         if table["fault"]:
             if self.fmt == "fixed":
                 text += "1"  # a record that ends too early
+            elif table["fault"] % 2 == 0:
+                text += '"1,2,%d\r\n' % table["fault"]  # a quote that is never closed
             else:
                 text += '"1"x,2,%d\r\n' % table["fault"]  # strict csv: delimiter expected after the closing quote
         return text
